@@ -698,6 +698,19 @@ theorem unanswered_target_never_completes (v : Variant) (r : Resp) (hr : isFailu
   | error => cases hr
   | bad => cases hr
 
+/-! (f) AN ERROR RESPONSE THAT ARRIVES BEFORE THE PLAN STAGE COMPLETES IS ERASED. The search
+pipeline's completion callback calls `Complete(nil)` after the last request is sent;
+`baseTaskContext.Complete` overwrites `ctx.err`. A node that fails fast (its error response is
+handled while the root is still sending) is forgotten: the query "succeeds" with the data of the
+others. The same response handled after the callback fails the query. -/
+theorem error_before_plan_completion_is_erased (v : Variant) (p : Payload) :
+    (((Ctx.new 2).handleAll v [.error, .ok p]).complete none).err = none ∧
+    (((Ctx.new 2).handle v .error).complete none |>.handle v (.ok p)).err = none ∧
+    ((((Ctx.new 2).complete none).handleAll v [.error, .ok p]).err = some .other) := by
+  refine ⟨rfl, ?_, ?_⟩
+  · simp only [Ctx.handle, Ctx.absorb, Ctx.complete, Ctx.new]; split <;> rfl
+  · simp only [Ctx.handleAll, List.foldl, Ctx.handle, Ctx.absorb, Ctx.complete, Ctx.new]; split <;> rfl
+
 /-- the full-strength statement is false of the code as it is (witness (a); (b), (c), (d) refute
 it just as well) -/
 theorem full_statement_false : ¬ FullStatement .code := by
@@ -842,7 +855,8 @@ end Example
 
 /-- the variant of `handleResponse` / `fieldAggregator.Aggregate` that /repo's source has NOW
 (the model driver runs this one) -/
-def currentVariant : Variant := ⟨Generated.C12.mergesLaterSpecs, Generated.C12.crossFeeds⟩
+def currentVariant : Variant :=
+  ⟨Generated.C12.mergesLaterSpecs, Generated.C12.crossFeeds, Generated.C12.crossFeedFallback⟩
 
 /-- whatever the source currently is, the partial theorems cover it … -/
 theorem current_variant_partial :
@@ -852,6 +866,35 @@ theorem current_variant_partial :
 theorem current_variant_intermediate_partial :
     type_of% (partition_invariance_intermediate_partial_any_variant currentVariant) :=
   partition_invariance_intermediate_partial_any_variant currentVariant
+
+/-- since fix commit eb2ea99 the source is `Variant.byType`: finding (d) is gone … -/
+theorem current_variant_two_functions_fixed (h : currentVariant = Variant.byType) :
+    let leaf := leafAnswer currentVariant Neg.dA.schema (some Neg.dSel) 4 Neg.dA.its
+    let im := ((Ctx.new 1).handleAll currentVariant [leaf]).taskResponse
+    outcomeOf currentVariant [im] Neg.dSel [] 100 [0] = outcomeOf currentVariant [leaf] Neg.dSel [] 100 [0] ∧
+    outcomeOf currentVariant [leaf] Neg.dSel [] 100 [0] = .rows [{ tags := 0, vals := [some [(1, 5)], some [(1, 5)]] }] := by
+  rw [h]; decide
+
+/-- … the other findings are not: the full-strength statement is still false of it (witness (a)) -/
+theorem current_variant_still_false (h : currentVariant = Variant.byType) : ¬ FullStatement currentVariant := by
+  rw [h]
+  intro hf
+  have hc : ∀ n ∈ [Neg.cA, Neg.cB], n.consistent := by
+    intro n hn ts hts fd hfd
+    simp only [List.mem_cons, List.not_mem_nil, or_false] at hn
+    rcases hn with rfl | rfl
+    · simp only [Neg.cA, Neg.pt, List.mem_singleton] at hts; subst hts
+      simp only [List.map, List.mem_singleton] at hfd; subst hfd
+      exact ⟨_, rfl, by simp⟩
+    · simp only [Neg.cB, Neg.pt, List.mem_singleton] at hts; subst hts
+      simp only [List.map, List.mem_singleton] at hfd; subst hfd
+      exact ⟨_, rfl, by simp⟩
+  have hc' : ∀ n ∈ [Neg.cB, Neg.cA], n.consistent := fun n hn => hc n (by
+    simp only [List.mem_cons, List.not_mem_nil, or_false] at hn ⊢; tauto)
+  have := hf (some [Neg.bare 0]) 4 (Neg.cA.its ++ Neg.cB.its) [Neg.cA, Neg.cB] [Neg.cB, Neg.cA] hc hc'
+    (by simp [List.flatMap_cons]) (by simp [List.flatMap_cons]; exact List.perm_append_comm)
+    [Neg.bare 0] [] 100 [0]
+  exact absurd this (by decide)
 
 /-- … and while it is `Variant.code` the full-strength statement is false of it (the harness's
 witness cases say whether the real code still behaves so). -/
@@ -880,8 +923,12 @@ open LinVerif.Generated.C12 in
 /-- `fieldAggregator.Aggregate` and the cross-feed flag agree: as it is (every primitive series goes
 through `AggregateBySlot`, i.e. into every kind) or with `fixes/C12-merge-by-agg-type.patch` -/
 theorem generated_field_aggregate :
-    (fieldAggregateCalls = ["it.HasNext", "it.Next", "pIt.HasNext", "pIt.Next", "a.AggregateBySlot"] ∧ crossFeeds = true) ∨
-    (fieldAggregateCalls = ["it.HasNext", "it.Next", "pIt.AggType", "pIt.HasNext", "pIt.Next", "math.IsInf", "a.aggregate"] ∧ crossFeeds = false) := by decide
+    (fieldAggregateCalls = ["it.HasNext", "it.Next", "pIt.HasNext", "pIt.Next", "a.AggregateBySlot"] ∧
+      crossFeeds = true ∧ crossFeedFallback = false) ∨
+    -- fix commit eb2ea99: by aggregate type, AggregateBySlot only when the type is not one of the aggregator's
+    (fieldAggregateCalls = ["it.HasNext", "it.Next", "pIt.AggType", "pIt.HasNext", "pIt.Next", "a.AggregateBySlot",
+        "a.aggregateBySlotOfType"] ∧ crossFeeds = false ∧ crossFeedFallback = true) ∨
+    (fieldAggregateCalls = ["it.HasNext", "it.Next", "pIt.AggType", "pIt.HasNext", "pIt.Next", "math.IsInf", "a.aggregate"] ∧ crossFeeds = false ∧ crossFeedFallback = false) := by decide
 
 open LinVerif.Generated.C12 in
 theorem generated_checkError :
